@@ -14,7 +14,7 @@ ASSUMPTIONS = ['tm_exact oracle (self-validated each shard, incl. numerical conf
                'psf/convergence for the sign convention)']
 N = {'quick': 1500, 'thorough': 25000}
 SHARDS = {'quick': 16, 'thorough': 32}
-REQUIRED_COUNTERS = ['psfconv_forward', 'psfconv_inverse', 'psfconv_agreement']
+REQUIRED_COUNTERS = ['alias_sequences', 'near_axis_cases', 'psfconv_forward', 'psfconv_inverse', 'psfconv_agreement']
 
 
 def plan(tier, seed):
@@ -67,6 +67,15 @@ def run_shard(spec, ctx):
             if i < 1:
                 ctx.sample(case)
             _one(ns, ctx, case)
+            if rnd.random() < 0.3:
+                _one(ns, ctx, tmwork.alias_grid_case(rnd, case))
+                g0 = tmwork.gen_geo_case(rnd, coordapi=False)
+                _one(ns, ctx, g0)
+                _one(ns, ctx, tmwork.alias_geo_case(rnd, g0))
+                ctx.count('alias_sequences')
+            if rnd.random() < 0.15:
+                _one(ns, ctx, tmwork.near_axis_grid_case(rnd))
+                ctx.count('near_axis_cases')
     finally:
         reach.stop()
         mon.detach()
